@@ -261,6 +261,39 @@ pub fn run(run: &Run) {
         },
         |i| json!({"op": "c14.g1x", "x": i}),
     );
+    // process-wide state in its INITIAL condition: each case below is the first square root a fresh process takes
+    // (a memo / lazily built table that is wrong until something else has filled it would show only here)
+    {
+        let mut nr = n(2);
+        while is_square_mod(&nr, &p) {
+            nr += n(1);
+        }
+        let f2j = |a: &N, b: &N| crate::api::jf2(&F2 { a: a.clone(), b: b.clone() });
+        let fresh: Vec<Value> = vec![
+            json!({"op": "c14.fq", "a": jn(&N::zero())}),
+            json!({"op": "c14.fq", "a": jn(&n(1))}),
+            json!({"op": "c14.fq", "a": jn(&n(4))}),
+            json!({"op": "c14.fq", "a": jn(&nr)}),
+            json!({"op": "c14.fq", "a": jn(&(&p - n(1)))}),
+            json!({"op": "c14.fq2", "x": f2j(&N::zero(), &N::zero())}),
+            json!({"op": "c14.fq2", "x": f2j(&n(1), &N::zero())}),
+            json!({"op": "c14.fq2", "x": f2j(&nr, &N::zero())}),
+            json!({"op": "c14.fq2", "x": f2j(&N::zero(), &n(1))}),
+            json!({"op": "c14.fq2", "x": crate::api::jf2(&F2 { a: n(3), b: n(5) }.sq())}),
+            json!({"op": "c14.fq2", "x": crate::api::jf2(&nu)}),
+            json!({"op": "c14.comp", "group": "G1", "d": jn(&n(1))}),
+            json!({"op": "c14.comp", "group": "G2", "d": jn(&n(1))}),
+            json!({"op": "c14.g1x", "x": 0}),
+        ];
+        run.grid(
+            Spec { name: "c14.fresh-process", n: fresh.len() as u64, classes: &[], required: &[] },
+            |i| {
+                crate::outcome_fresh(&fresh[i as usize])?;
+                Ok(Tally::new(1, true, 0))
+            },
+            |i| json!({"op": "c14.fresh", "inner": fresh[i as usize]}),
+        );
+    }
     let ds = mccore::alpha::dlogs(run.tier, run.seed);
     let nd = ds.len() as u64;
     run.grid(
@@ -312,6 +345,7 @@ pub fn replay(c: &Value) -> Result<(), Bad> {
         "c14.fq" => fq_case(&(mccore::gn(c, "a") % q())).map(|_| ()),
         "c14.fq2" => fq2_case(&crate::api::gf2(&c["x"])).map(|_| ()),
         "c14.g1x" => g1x_case(gu(c, "x")).map(|_| ()),
+        "c14.fresh" => crate::outcome_fresh(&c["inner"]),
         "c14.g2cleared" => g2_cleared_case(gu(c, "i") as usize).map(|_| ()),
         "c14.comp" => {
             let d = mccore::gn(c, "d");
